@@ -370,3 +370,162 @@ Section Subgraphs.
     exists gs. split; [exact E|]. split; [exact C|exact F].
   Qed.
 End Subgraphs.
+
+(* ---------------------------------------------------------------- handoff insertion: what happens
+   to the node list *)
+Definition new_hoff_node (n : node) : Prop :=
+  n_kind n = KHoff HVec /\ n_loop n = None /\ n_refs n = [] /\ n_sg n = None /\ n_delay n = None.
+
+Lemma insert_one_nodes st eid st' : insert_one st eid = ROk st' ->
+  (g_nodes (is_g st') = g_nodes (is_g st) /\ is_next_node st' = is_next_node st) \/
+  (exists n, g_nodes (is_g st') = g_nodes (is_g st) ++ [n] /\ n_id n = is_next_node st /\
+             new_hoff_node n /\ is_next_node st' = is_next_node st + 1).
+Proof.
+  unfold insert_one. destruct (find_edge (g_edges (is_g st)) eid) as [e|]; [|discriminate].
+  destruct (_ || _).
+  - intro H. injection H as <-. left. auto.
+  - intro H. injection H as <-. right. simpl. eexists. split; [reflexivity|].
+    simpl. repeat split; reflexivity.
+Qed.
+
+Lemma insert_one_static st eid st' : insert_one st eid = ROk st' ->
+  g_loops (is_g st') = g_loops (is_g st).
+Proof.
+  unfold insert_one. destruct (find_edge (g_edges (is_g st)) eid) as [e|]; [|discriminate].
+  destruct (_ || _); intro H; injection H as <-; reflexivity.
+Qed.
+
+Lemma insert_all_nodes : forall eids st st', insert_all st eids = ROk st' ->
+  exists extra, g_nodes (is_g st') = g_nodes (is_g st) ++ extra /\
+    g_loops (is_g st') = g_loops (is_g st) /\
+    Forall (fun n => new_hoff_node n /\ is_next_node st <= n_id n < is_next_node st') extra /\
+    is_next_node st <= is_next_node st' /\
+    NoDup (map n_id extra).
+Proof.
+  induction eids as [|x r IH]; intros st st' H; simpl in H.
+  - injection H as <-. exists []. rewrite app_nil_r. repeat split; auto; try lia; constructor.
+  - destruct (insert_one st x) as [st1| |] eqn:E1; simpl in H; try discriminate.
+    destruct (IH st1 st' H) as (ex & Hn & Hl & Hf & Hle & Hnd).
+    pose proof (insert_one_static st x st1 E1) as Hl1.
+    destruct (insert_one_nodes st x st1 E1) as [[En Ex]|(n & En & Eid & Hnew & Ex)].
+    + exists ex. rewrite Hn, En, Hl, Hl1, <- Ex. repeat split; auto.
+    + exists (n :: ex). rewrite Hn, En, <- app_assoc, Hl, Hl1. simpl. repeat split; auto; try lia.
+      * constructor; [split; [exact Hnew|lia]|].
+        eapply Forall_impl; [|exact Hf]. intros a [Ha Hb]. split; [exact Ha|lia].
+      * constructor; [|exact Hnd]. intro Hin. apply in_map_iff in Hin. destruct Hin as (a & Ea & Ha).
+        rewrite Forall_forall in Hf. destruct (Hf a Ha) as [_ Hr]. lia.
+Qed.
+
+(* ---------------------------------------------------------------- inversion of partition_model *)
+Lemma partition_model_inv T g p : partition_model T g = POk p ->
+  exists s0 ap st ist groups topo,
+    partition_front T g = FOk s0 ap /\
+    ploop (S (S (length (g_edges g)))) g (mkPs s0 (colors0 g) (sort_dedup (map e_id (g_edges g)))) = ROk st /\
+    insert_all (mkIs g (tick_edges T g) (max_list (node_ids g) + 1) (max_list (map e_id (g_edges g)) + 1))
+               (ps_hedges st) = ROk ist /\
+    sm_subgraphs (ps_sm st) = ROk groups /\
+    make_loops_contiguous (is_g ist) (register_sgs (is_g ist) groups) (map s_id (register_sgs (is_g ist) groups)) = ROk topo /\
+    p = mkGraph (map (fun n => mkNode (n_id n) (n_kind n) (n_loop n) (n_refs n)
+                                      (node_sg (register_sgs (is_g ist) groups) (n_id n))
+                                      (mark_node (is_g ist) (Full.is_tick ist) n)) (g_nodes (is_g ist)))
+                (g_edges (is_g ist)) (g_loops (is_g ist)) (register_sgs (is_g ist) groups) topo.
+Proof.
+  unfold partition_model. destruct (partition_front T g) as [s0 ap|c| | |]; try discriminate.
+  unfold of_res.
+  destruct (ploop _ g _) as [st| |] eqn:E1; try discriminate.
+  destruct (insert_all _ (ps_hedges st)) as [ist| |] eqn:E2; try discriminate.
+  destruct (sm_subgraphs (ps_sm st)) as [groups| |] eqn:E3; try discriminate.
+  destruct (make_loops_contiguous _ _ _) as [topo| |] eqn:E4; try discriminate.
+  destruct (validate_topo_sort _ _); try discriminate.
+  intro H. injection H as <-. exists s0, ap, st, ist, groups, topo.
+  split; [reflexivity|]. split; [exact E1|]. split; [exact E2|]. split; [exact E3|]. split; [exact E4|reflexivity].
+Qed.
+
+(* ---------------------------------------------------------------- the front end's guarantees *)
+(* [flat_ok_b]: what FlatGraphBuilder guarantees about a flat graph and the model needs; decidable,
+   and evaluated on every real flat graph by the C18 check (bit 0). *)
+Definition flat_ok_b (T : optable) (g : graph) : bool :=
+  nodup_b (node_ids g) && nodup_b (map e_id (g_edges g)) &&
+  forallb (fun e => memN (e_src e) (node_ids g) && memN (e_dst e) (node_ids g)) (g_edges g) &&
+  deps_closed_b T g &&
+  forallb (fun n => match n_kind n with KMod => false | _ => true end) (g_nodes g).
+
+Lemma sinsert_length x l : (length (sinsert x l) <= S (length l))%nat.
+Proof. induction l as [|y r IH]; simpl; [lia|]. destruct (N.compare x y); simpl; lia. Qed.
+Lemma sort_dedup_length l : (length (sort_dedup l) <= length l)%nat.
+Proof.
+  unfold sort_dedup. induction l as [|x l IH]; simpl; [lia|].
+  pose proof (sinsert_length x (fold_right sinsert [] l)). lia.
+Qed.
+
+Lemma front_ok_inv T g s0 ap : partition_front T g = FOk s0 ap ->
+  ap = access_pairs_raw g /\
+  sm_new (node_ids g) (preds_from (pred_pairs T g (access_pairs_raw g))) (enemy_pairs T g (access_pairs_raw g)) = NewOk s0.
+Proof.
+  unfold partition_front, access_pairs. destruct (existsb _ (access_pairs_raw g)); [discriminate|].
+  destruct (sm_new _ _ _) as [s| | |] eqn:E; try discriminate. intro H. injection H as <- <-. auto.
+Qed.
+
+Section AllGraphs.
+  Variables (T : optable) (g : graph) (p : graph).
+  Hypothesis Hok : flat_ok_b T g = true.
+  Hypothesis Hp : partition_model T g = POk p.
+
+  Let ks := sort_dedup (node_ids g).
+
+  Lemma ok_parts :
+    NoDup (node_ids g) /\ NoDup (map e_id (g_edges g)) /\
+    (forall e, In e (g_edges g) -> In (e_src e) ks /\ In (e_dst e) ks) /\
+    deps_closed_b T g = true /\
+    (forall n, In n (g_nodes g) -> n_kind n <> KMod).
+  Proof.
+    unfold flat_ok_b in Hok.
+    apply andb_true_iff in Hok. destruct Hok as [H H5].
+    apply andb_true_iff in H. destruct H as [H H4].
+    apply andb_true_iff in H. destruct H as [H H3].
+    apply andb_true_iff in H. destruct H as [H1 H2].
+    split; [apply nodup_b_NoDup; exact H1|]. split; [apply nodup_b_NoDup; exact H2|].
+    split; [|split; [exact H4|]].
+    - intros e He. rewrite forallb_forall in H3. specialize (H3 e He). apply andb_true_iff in H3.
+      destruct H3 as [A B]. unfold ks. split; apply In_sort_dedup'; apply memN_In'; assumption.
+    - intros n Hn E. rewrite forallb_forall in H5. specialize (H5 n Hn). rewrite E in H5. discriminate.
+  Qed.
+
+  (* the state after the progress loop, with its invariant, and the remaining pipeline *)
+  Theorem model_core :
+    exists st f ist groups topo,
+      PInv T g st f /\
+      insert_all (mkIs g (tick_edges T g) (max_list (node_ids g) + 1) (max_list (map e_id (g_edges g)) + 1))
+                 (ps_hedges st) = ROk ist /\
+      sm_subgraphs (ps_sm st) = ROk groups /\
+      concat groups = sm_order (ps_sm st) /\ Forall (is_class ks f) groups /\
+      make_loops_contiguous (is_g ist) (register_sgs (is_g ist) groups)
+                            (map s_id (register_sgs (is_g ist) groups)) = ROk topo /\
+      p = mkGraph (map (fun n => mkNode (n_id n) (n_kind n) (n_loop n) (n_refs n)
+                                        (node_sg (register_sgs (is_g ist) groups) (n_id n))
+                                        (mark_node (is_g ist) (Full.is_tick ist) n)) (g_nodes (is_g ist)))
+                  (g_edges (is_g ist)) (g_loops (is_g ist)) (register_sgs (is_g ist) groups) topo.
+  Proof.
+    destruct ok_parts as (ND & NDe & Cl & Dc & _).
+    destruct (partition_model_inv T g p Hp) as (s0 & ap & st & ist & groups & topo & Ef & El & Ei & Es & Em & Ep).
+    destruct (front_ok_inv T g s0 ap Ef) as [-> Enew].
+    assert (I0 : SMInv ks (preds_from (pred_pairs T g (access_pairs_raw g)))
+                       (enemy_pairs T g (access_pairs_raw g)) s0 (fun x => x)).
+    { apply sm_new_inv; [|exact Enew]. intros x q _ Hq. exact (deps_closed T g Dc x q Hq). }
+    assert (P0 : PInv T g (mkPs s0 (colors0 g) (sort_dedup (map e_id (g_edges g)))) (fun x => x)).
+    { constructor; simpl; auto.
+      - intros e He _ Hn. exfalso. apply Hn. apply In_sort_dedup'. apply in_map. exact He.
+      - intros x y _ _ E. subst. reflexivity.
+      - intros e He _ _. apply In_sort_dedup'. apply in_map. exact He. }
+    assert (Hfuel : (length (ps_hedges (mkPs s0 (colors0 g) (sort_dedup (map e_id (g_edges g)))))
+                     < S (S (length (g_edges g))))%nat).
+    { simpl. pose proof (sort_dedup_length (map e_id (g_edges g))) as HL. rewrite map_length in HL. lia. }
+    destruct (ploop_inv T g NDe Cl (S (S (length (g_edges g)))) _ _ Hfuel P0) as (st' & f & El' & P).
+    rewrite El in El'. injection El' as <-.
+    destruct (sm_subgraphs_spec ks _ _ (ps_sm st) f (pi_sm _ _ _ _ P)) as (gs & Eg & Cg & Fg).
+    rewrite Es in Eg. injection Eg as <-.
+    exists st, f, ist, groups, topo.
+    split; [exact P|]. split; [exact Ei|]. split; [exact Es|]. split; [exact Cg|].
+    split; [exact Fg|]. split; [exact Em|exact Ep].
+  Qed.
+End AllGraphs.
